@@ -41,7 +41,7 @@ ASSUMPTIONS = [
     "an exception escaping data_received on a noisy stream makes the run void (C14); on a clean stream it is a violation (promised messages lost)",
     "the absolute clean-stream oracle is used only with candidate lists in which exactly one reader matches the stream's type and configuration",
 ]
-MUST_FIRE = {"quick": ["valid_message_with_empty_payload", "selected_second_candidate", "invalid_withheld", "clean_absolute_checked", "empty_candidate_list", "selection_after_first_chunk", "reconnect_with_same_candidate_sequence", "candidates_as_tuple"], "thorough": ["selected_second_candidate", "invalid_withheld", "clean_absolute_checked", "empty_candidate_list", "selection_after_first_chunk"]}
+MUST_FIRE = {"quick": ["valid_message_with_empty_payload", "selected_second_candidate", "invalid_withheld", "clean_absolute_checked", "empty_candidate_list", "selection_after_first_chunk", "reconnect_with_same_candidate_sequence", "candidates_as_tuple", "bystander_protocol_instance"], "thorough": ["selected_second_candidate", "invalid_withheld", "clean_absolute_checked", "empty_candidate_list", "selection_after_first_chunk"]}
 
 
 def _cand_lists(rng, cfg):
@@ -83,6 +83,9 @@ def gen(rng, tier, index):
     wire = wire_of(stream)[0]
     hot = [i + 1 for i, b in enumerate(wire[:4000]) if b in (0x7E, 0x7D, 0x0A, 0x21)][:200]
     sc = {"cls": rng.choice(["payload", "message"]), "cands": cands, "stream": stream, "cuts": fragment.draw(rng, len(wire), hot, allow_empty=False)}
+    if rng.random() < 0.12:
+        a = next(c02.gen(rng, tier, index))
+        sc["bystander"] = (hdlc_gen.assemble(a["items"][:7], False)[0][:400] + p1_gen.build(p1_gen.readout_spec(rng, None, "small"))).hex()
     r = rng.random()
     if r < 0.15:
         sc["cands_as"] = "tuple"  # the parameter is a Sequence: a tuple is as good as a list
@@ -187,8 +190,26 @@ def execute(sc):
     finally:
         asyncio.events._set_running_loop(None)
     errors = []
+    other = None
+    if sc.get("bystander"):
+        # another connection in the same process: its own protocol instance, queue, readers and traffic
+        asyncio.events._set_running_loop(loop)
+        try:
+            other = cls(asyncio.Queue(), [make(["H", False, True]), make(["P"])])
+            other.connection_made(_Transport())
+        finally:
+            asyncio.events._set_running_loop(None)
+        other_wire = bytes.fromhex(sc["bystander"])
+        other_pos = [0]
 
     def deliver(chunk, idx):
+        if other is not None and other_pos[0] < len(other_wire):
+            step = 1 + (idx * 11) % 37
+            try:
+                other.data_received(other_wire[other_pos[0] : other_pos[0] + step])
+            except Exception:  # noqa: BLE001 - the bystander's own trouble is not judged here
+                pass
+            other_pos[0] += step
         try:
             proto.data_received(chunk)
         except Exception as ex:  # noqa: BLE001
@@ -312,6 +333,8 @@ def execute(sc):
             pays = [m.payload for m in got if m.payload]
             if pays != sent:
                 add("Q2", f"clean-stream-payloads-differ {stream['kind']}", f"meter sent {len(sent)} non-empty payloads, messages on the queue carry {len(pays)}; candidates {sc['cands']}")
+    if sc.get("bystander"):
+        probes["bystander_protocol_instance"] = 1
     if sc.get("reuse"):
         probes["reconnect_with_same_candidate_sequence"] = 1
     if sc.get("cands_as") == "tuple":
@@ -345,6 +368,8 @@ def candidates(sc):
             yield dict(copy.deepcopy(sc), cuts={"m": "list", "at": red} if red else {"m": "whole"})
     elif sc["cuts"]["m"] == "fixed":
         yield dict(copy.deepcopy(sc), cuts={"m": "whole"})
+    if sc.get("bystander"):
+        yield {k: v for k, v in copy.deepcopy(sc).items() if k != "bystander"}
     if sc.get("reuse"):
         yield {k: v for k, v in copy.deepcopy(sc).items() if k != "reuse"}
     if sc.get("cands_as"):
